@@ -413,12 +413,50 @@ func (g *gen) floatString(width int) string {
 	}
 }
 
+// longIntPart reports whether s is a decimal (non-hex) literal whose mantissa has
+// more than 800 digits between its first non-zero digit and the decimal point
+// (or the end of the mantissa).  For such inputs go1.23.5's slow path
+// (`decimal.set`) computes `dp = nd` from a digit count that is capped at 800, so
+// whenever the Eisel-Lemire fast path declines, the result is off by a power of
+// ten — e.g. ParseFloat("1"+800 zeros+"e-791", 64) returns 1e8 instead of 1e9.
+// The Lean model returns the correctly rounded value; these inputs are outside
+// the domain on which model and library agree and are generated only with
+// -bug800.
+func longIntPart(s string) bool {
+	i := 0
+	if i < len(s) && (s[i] == '+' || s[i] == '-') {
+		i++
+	}
+	if i+1 < len(s) && s[i] == '0' && (s[i+1] == 'x' || s[i+1] == 'X') {
+		return false
+	}
+	n := 0
+	for ; i < len(s); i++ {
+		c := s[i]
+		switch {
+		case c == '_':
+		case c >= '0' && c <= '9':
+			if c != '0' || n > 0 {
+				n++
+			}
+		default:
+			return n > 800
+		}
+	}
+	return n > 800
+}
+
+var allowBug800 = false
+
 func (g *gen) floatCase() kase {
 	width := 64
 	if g.chance(0.45) {
 		width = 32
 	}
 	s := g.floatString(width)
+	for !allowBug800 && longIntPart(s) {
+		s = g.floatString(width)
+	}
 	return kase{fmt.Sprintf("float %d %s", width, hx(s)), ansFloat(s, width)}
 }
 
